@@ -133,7 +133,10 @@ def deserialize_list_like(
         values += value[len(items) :]
     else:
         values = value
-    return content_type(values)
+    try:
+        return content_type(values)
+    except TypeError as e:  # e.g. set() of an unhashable element
+        raise TypeError(f"{name}: Got {value}; {str(e)}") from e
 
 
 def deserialize_array(
@@ -257,20 +260,25 @@ def deserialize_map(map_field, source_val, name, camel_case_convert=False):
     else:
         key_field, value_field = None, None
     res = {}
+
+    def entry(field, entry_val, **kwargs):
+        # the key / value field's own message starts with whatever name its last use left in it
+        # (nothing on a fresh class, another field's name if the Field instance is shared):
+        # make sure the error begins with the path of THIS map
+        try:
+            return deserialize_single_field(
+                field, entry_val, name, camel_case_convert=camel_case_convert, **kwargs
+            )
+        except (ValueError, TypeError) as e:
+            text = str(e)
+            if text.startswith((f"{name}:", f"{name}_")):
+                raise
+            raise e.__class__(f"{name}: {text}") from e
+
     for key, val in source_val.items():
         ignore_none = getattr(value_field, IGNORE_NONE_VALUES, False)
-
-        res[
-            deserialize_single_field(
-                key_field, key, name, camel_case_convert=camel_case_convert
-            )
-        ] = deserialize_single_field(
-            value_field,
-            val,
-            name,
-            camel_case_convert=camel_case_convert,
-            ignore_none=ignore_none,
-        )
+        deserialized_val = entry(value_field, val, ignore_none=ignore_none)
+        res[entry(key_field, key)] = deserialized_val
     return res
 
 
